@@ -57,11 +57,13 @@ pub struct WState {
     c: Option<usize>,
     dep: bool,
     swapped: bool,
+    /// the package graph lists the packages in the other order (same packages, same edges)
+    gswapped: bool,
 }
 
 impl WState {
     fn init() -> Self {
-        WState { a: 0, b: 0, c: None, dep: false, swapped: false }
+        WState { a: 0, b: 0, c: None, dep: false, swapped: false, gswapped: false }
     }
 
     fn roots(&self) -> Vec<SourceRoot> {
@@ -85,8 +87,13 @@ impl WState {
 
     fn graph(&self) -> PackageGraph {
         let mut g = PackageGraph::default();
-        let app = g.add_package("app".into(), F_APP_TOML, true);
-        let lib = g.add_package("lib".into(), F_LIB_TOML, true);
+        let (app, lib) = if self.gswapped {
+            let lib = g.add_package("lib".into(), F_LIB_TOML, true);
+            (g.add_package("app".into(), F_APP_TOML, true), lib)
+        } else {
+            let app = g.add_package("app".into(), F_APP_TOML, true);
+            (app, g.add_package("lib".into(), F_LIB_TOML, true))
+        };
         if self.dep {
             g.add_dep(app, Dependency { package: lib });
         }
@@ -129,6 +136,8 @@ pub enum Chg {
     AddDep,
     RemoveDep,
     SwapRoots,
+    /// the package graph is sent again with its packages in the other order; the roots are not
+    SwapGraph,
     SameAgain,
 }
 
@@ -150,7 +159,7 @@ fn changes() -> Vec<Chg> {
     for i in 0..B.len() {
         v.push(Chg::SetB(i));
     }
-    v.extend([Chg::AddC(0), Chg::AddC(1), Chg::RemoveC, Chg::AddDep, Chg::RemoveDep, Chg::SwapRoots, Chg::SameAgain]);
+    v.extend([Chg::AddC(0), Chg::AddC(1), Chg::RemoveC, Chg::AddDep, Chg::RemoveDep, Chg::SwapRoots, Chg::SwapGraph, Chg::SameAgain]);
     v
 }
 
@@ -200,6 +209,10 @@ fn step_into(st: &mut WState, c: Chg, ch: &mut Change) {
         Chg::SwapRoots => {
             st.swapped = !st.swapped;
             ch.set_roots(st.roots());
+        }
+        Chg::SwapGraph => {
+            st.gswapped = !st.gswapped;
+            ch.set_package_graph(st.graph());
         }
         Chg::SameAgain => {
             ch.change_file(F_A, Arc::from(A[st.a]));
